@@ -120,6 +120,12 @@ getValue may then take the entry in front of std::upper_bound (same comparator, 
 or the name in front differs), hasParam std::binary_search.  parseAndRemove scanning from the back is recognised wrong
 (an option owns the arguments behind it).
 
+Refactor batch 9: the SI prefix may be chosen by counting how many entries of a strictly sorted constant threshold table the
+magnitude reaches (`k = counter(|v|); if (k > 0) print(v / SCALE[k-1], SUFFIX[k-1])`): one R-C18-3 rung per table entry
+(unsorted table, index k instead of k-1, scale / suffix / threshold mismatches are recognised wrong).  NOT decided: FileName
+accessors built on a struct of marks filled by a hand-written backward scan (C18-R17), constructor normalisation through
+std::replace_if + resize(find_last_not_of(sep) + 1) and a delegating constructor - the floors report those as undecided.
+
 Helpers: file-local / private helpers are followed with parameters mapped (FileName position helpers are
 summarised into the typestate, a prefix-length index loop stands for std::mismatch, a lookup helper that scans
 from the back and returns the first hit stands for last-duplicate-wins, name=value cutting may live in a helper).
@@ -2727,6 +2733,292 @@ def unit_loop_ladder(ctx, tu, f, R):
     return n
 
 
+def _const_table(tu, e):
+    """(name, [values]) of a const array of numbers / characters named by e, or None"""
+    e = tu.strip(e, casts=True)
+    if e is None or e.get('kind') != 'DeclRefExpr':
+        return None
+    tv = tu.node(e.get('referencedDecl', {}).get('id'))
+    if tv is None or tv.get('kind') != 'VarDecl' or not tv.get('type', {}).get('qualType', '').startswith('const '):
+        return None
+    il = [y for y in tu.kids(tv) if y.get('kind') in ('InitListExpr', 'StringLiteral')]
+    if not il:
+        return None
+    if il[0].get('kind') == 'StringLiteral':
+        try:
+            return tv.get('name'), list(bytes(il[0].get('value', '""')[1:-1], 'utf-8').decode('unicode_escape'))
+        except Exception:
+            return None
+    vals = []
+    for y in tu.kids(il[0]):
+        y0 = tu.strip(y, casts=True)
+        if y0 is not None and y0.get('kind') == 'CharacterLiteral':
+            vals.append(chr(int(y0.get('value'))))
+        else:
+            v = num_const(tu, y)
+            if v is None:
+                return None
+            vals.append(v)
+    return tv.get('name'), vals
+
+
+def count_fn(tu, hf):
+    """int counter(double m) { int r = 0; for (const float t : TABLE) r += (m >= t) ? 1 : 0;  return r; }   (also `if (m >= t) ++r;`,
+    `<=`):  (table name, values, op) or None"""
+    if hf is None or hf['dep'] or tu.body(hf) is None or len(hf.get('params', [])) != 1 or not is_int_ct(plain_ct(hf['fty'].split('(')[0])):
+        return None
+    body = tu.body(hf)
+    fors = [y for y in tu.walk(body) if y.get('kind') in ('CXXForRangeStmt', 'ForStmt', 'WhileStmt', 'DoStmt')]
+    rets = [y for y in tu.walk(body) if y.get('kind') == 'ReturnStmt']
+    if len(fors) != 1 or fors[0].get('kind') != 'CXXForRangeStmt' or len(rets) != 1 or not tu.kids(rets[0]):
+        return None
+    rf = fors[0]
+    rv = tu.strip(tu.kids(rets[0])[0], casts=True)
+    if rv is None or rv.get('kind') != 'DeclRefExpr':
+        return None
+    rid = rv.get('referencedDecl', {}).get('id')
+    rdecl = tu.node(rid)
+    if rdecl is None or rdecl.get('kind') != 'VarDecl' or not tu.kids(rdecl) or num_const(tu, tu.kids(rdecl)[0]) != 0:
+        return None
+    rng = [v2 for v2 in tu.walk(rf) if v2.get('kind') == 'VarDecl' and (v2.get('name') or '').startswith('__range')]
+    elem = None
+    for st in tu.kids(rf):
+        if st.get('kind') == 'DeclStmt':
+            for v2 in tu.kids(st):
+                if v2.get('kind') == 'VarDecl' and not (v2.get('name') or '').startswith('__'):
+                    elem = v2
+    if not rng or elem is None or not tu.kids(rng[0]):
+        return None
+    tab = _const_table(tu, tu.kids(rng[0])[0])
+    if tab is None or not all(isinstance(v, float) for v in tab[1]):
+        return None
+    lbody = tu.kids(rf)[-1]
+    # every write of r: one, inside the loop body
+    writes = []
+    for y in tu.walk(body):
+        if y.get('kind') in ('CompoundAssignOperator', 'BinaryOperator', 'UnaryOperator') and tu.kids(y):
+            l = tu.strip(tu.kids(y)[0], casts=True)
+            if l is not None and l.get('kind') == 'DeclRefExpr' and l.get('referencedDecl', {}).get('id') == rid and \
+                    (y.get('kind') != 'BinaryOperator' or y.get('opcode') == '=') and \
+                    (y.get('kind') != 'UnaryOperator' or y.get('opcode') in ('++', '--')):
+                writes.append(y)
+    if len(writes) != 1 or writes[0]['id'] not in {z['id'] for z in tu.walk(lbody)}:
+        return None
+    w = writes[0]
+    cond = None
+    if w.get('kind') == 'CompoundAssignOperator' and w.get('opcode') == '+=':
+        r = tu.strip(tu.kids(w)[1], casts=True)
+        while r is not None and r.get('kind') == 'ParenExpr':
+            r = tu.strip(tu.kids(r)[0], casts=True)
+        if r is not None and r.get('kind') == 'ConditionalOperator' and num_const(tu, tu.kids(r)[1]) == 1 and num_const(tu, tu.kids(r)[2]) == 0:
+            cond = tu.kids(r)[0]
+        elif r is not None and r.get('kind') == 'BinaryOperator':
+            cond = r                  # r += (m >= t)
+    elif w.get('kind') == 'UnaryOperator' and w.get('opcode') == '++':
+        ifs = [y for y in tu.walk(lbody) if y.get('kind') == 'IfStmt']
+        if len(ifs) == 1 and len(tu.kids(ifs[0])) == 2 and w['id'] in {z['id'] for z in tu.walk(tu.kids(ifs[0])[1])}:
+            cond = tu.kids(ifs[0])[0]
+    other = [y for y in tu.walk(lbody) if y.get('kind') in ('BreakStmt', 'ContinueStmt', 'ReturnStmt', 'GotoStmt')]
+    c = tu.strip(cond, casts=True) if cond is not None else None
+    while c is not None and c.get('kind') == 'ParenExpr':
+        c = tu.strip(tu.kids(c)[0], casts=True)
+    if other or c is None or c.get('kind') != 'BinaryOperator' or c.get('opcode') not in ('>=', '>', '<=', '<'):
+        return None
+    l, r = (tu.strip(y, casts=True) for y in tu.kids(c)[:2])
+    op = c['opcode']
+    pid = hf['params'][0]['id']
+
+    def isd(e, did):
+        return e is not None and e.get('kind') == 'DeclRefExpr' and e.get('referencedDecl', {}).get('id') == did
+    if isd(l, elem['id']) and isd(r, pid):
+        op = {'<': '>', '<=': '>=', '>': '<', '>=': '<='}[op]
+    elif not (isd(l, pid) and isd(r, elem['id'])):
+        return None
+    return tab[0], tab[1], op
+
+
+def count_ladder(ctx, tu, f, R):
+    """the SI prefix is selected by counting how many thresholds of a sorted constant table the magnitude reaches:
+         const int k = counter(|value|);  if (k > 0) print(value / SCALE[k - 1], SUFFIX[k - 1]);
+    With a strictly ascending table and `>=` the count k says  T[k-1] <= |value| < T[k]  (descending and `<=` likewise): one rung
+    per table entry.  Returns the number of instances reported, or None if f is not written this way."""
+    body = tu.body(f)
+    if body is None:
+        return None
+    x = FnX(tu, f)
+    fr = LFrame(tu, f)
+    file, fname = tu.fn_file(f), fn_name(f)
+    par = f['params'][0] if f.get('params') else None
+    unsigned_in = par is not None and plain_ct(par['ct']).startswith('unsigned')
+    ladders = []
+    for ifs in tu.walk(body):
+        if ifs.get('kind') != 'IfStmt' or len(tu.kids(ifs)) < 2:
+            continue
+        c = tu.strip(tu.kids(ifs)[0], casts=True)
+        if c is None or c.get('kind') != 'BinaryOperator' or c.get('opcode') not in ('>', '!=', '>='):
+            continue
+        kd, kv = x.var_of(tu.kids(c)[0])
+        cv = num_const(tu, tu.kids(c)[1])
+        if kd is None or kv['param'] or len(kv['defs']) != 1 or cv != (1 if c['opcode'] == '>=' else 0):
+            continue
+        init = x.single_init(kd)
+        call = x.peel(init) if init is not None else None
+        if call is None or call.get('kind') != 'CallExpr':
+            continue
+        hf = tu.callee_fn(call)
+        cf = count_fn(tu, hf)
+        if cf is None:
+            continue
+        ladders.append((ifs, c, kd, kv, call, hf, cf))
+    if not ladders:
+        return None
+    n = 0
+    ups, los = [], []
+    prev_upper_floor = None
+    for ifs, c, kd, kv, call, hf, (tname, T, op) in ladders:
+        K = Poly.atom(('var', kd, kv['name']))
+        loc = tu.loc(c)
+        inst0 = '%s: prefix chosen by `%s` (count over %s)' % (fname, tu.show(call), tname)
+        und, bad = [], []
+        trole = fr.role(tu.kids(call)[1]) if len(tu.kids(call)) == 2 else None
+        upper = op in ('>=', '>')
+        mono = all((T[i] < T[i + 1]) if upper else (T[i] > T[i + 1]) for i in range(len(T) - 1))
+        if not mono:
+            n += 1
+            ctx.violation(R, inst0, 'the count of `%s` thresholds reached is used as the index of the prefix, but `%s` is not strictly %s: '
+                          'the count does not identify the largest threshold reached' % (op, tname, 'ascending' if upper else 'descending'),
+                          loc, key='%s|%s|%s|table-order' % (R, file, fname))
+            continue
+        then = tu.kids(ifs)[1]
+        subs = [y for y in tu.walk(then) if y.get('kind') == 'ArraySubscriptExpr']
+        scale = suff = None
+        scale_op = None
+        idx_bad = None
+        for y in subs:
+            tb = _const_table(tu, tu.kids(y)[0])
+            ip = x.poly_at(tu.kids(y)[1], None)
+            if tb is None:
+                und.append('`%s` does not index a constant table' % tu.show(y))
+                continue
+            if ip != K - 1:
+                idx_bad = (y, ip)
+                continue
+            if all(isinstance(v, float) for v in tb[1]):
+                pp = tu.par(y)
+                while pp is not None and pp.get('kind') in ('ImplicitCastExpr', 'ParenExpr'):
+                    pp = tu.par(pp)
+                if pp is not None and pp.get('kind') == 'BinaryOperator' and pp.get('opcode') in ('/', '*'):
+                    a, b2 = tu.kids(pp)[:2]
+                    is_right = y['id'] in {z['id'] for z in tu.walk(b2)}
+                    oth = a if is_right else b2
+                    if pp['opcode'] == '/' and not is_right:
+                        und.append('`%s`: the table entry is divided by the value' % tu.show(pp))
+                        continue
+                    scale, scale_op, num = tb, pp['opcode'], oth
+                else:
+                    und.append('`%s` is not multiplied with / divided into the value' % tu.show(y))
+            else:
+                suff = tb
+        if idx_bad is not None:
+            n += 1
+            ctx.violation(R, inst0, '`%s` is indexed with `%s`; a count of k thresholds reached selects entry k - 1 (`%s`), entry k is the '
+                          'next larger prefix and does not exist for the last one' % (tu.show(idx_bad[0]), idx_bad[1].show(), (K - 1).show()),
+                          tu.loc(idx_bad[0]), key='%s|%s|%s|table-index' % (R, file, fname))
+            continue
+        if scale is None or suff is None:
+            und.append('cannot find `value / SCALE[%s]` and `SUFFIX[%s]` in the branch' % ((K - 1).show(), (K - 1).show()))
+        elif not (len(scale[1]) == len(suff[1]) == len(T)):
+            und.append('the tables %s, %s and %s do not have the same length' % (tname, scale[0], suff[0]))
+        # the print: snprintf("%.1f%c", scaled, suffix) here or in a helper that is handed (scaled, suffix)
+        if not und:
+            pcs = [y for y in tu.walk(then) if y.get('kind') == 'CallExpr']
+            okp = False
+            for pc in pcs:
+                q = tu.sd(pc).get('q')
+                pargs = tu.kids(pc)[1:]
+                if q in PRINTF_Q:
+                    fm = [tu.strip(a, casts=True) for a in pargs if (tu.strip(a, casts=True) or {}).get('kind') == 'StringLiteral']
+                    if fm and re.match(r'^"%[-+ 0#]*\d*(?:\.\d+)?l?[fF]%c"$', fm[0].get('value', '')):
+                        okp = True
+                else:
+                    pf = tu.callee_fn(pc)
+                    if pf is not None and not pf['dep'] and tu.cfg(pf) is not None and len(pf.get('params', [])) == 2 and len(pargs) == 2:
+                        inner = [y for b_, i_, y in tu.cfg(pf).stmts() if y.get('kind') == 'CallExpr' and tu.sd(y).get('q') in PRINTF_Q]
+                        if len(inner) == 1:
+                            ia = tu.kids(inner[0])[1:]
+                            fm = [k_ for k_, a in enumerate(ia) if (tu.strip(a, casts=True) or {}).get('kind') == 'StringLiteral']
+                            if fm and re.match(r'^"%[-+ 0#]*\d*(?:\.\d+)?l?[fF]%c"$', tu.strip(ia[fm[0]], casts=True).get('value', '')):
+                                rest = ia[fm[0] + 1:]
+                                ids = [(tu.strip(a, casts=True) or {}).get('referencedDecl', {}).get('id') for a in rest]
+                                if ids == [p_['id'] for p_ in pf['params']]:
+                                    okp = True
+            if not okp:
+                und.append('cannot find the print `"%.1f%c", scaled value, suffix` of the branch')
+        nrole = fr.role(num) if (not und and scale is not None) else None
+        if not und and nrole is None:
+            und.append('the scaled value `%s` is not the input' % tu.show(num))
+        if und:
+            n += 1
+            for u in und:
+                ctx.undecided(R, inst0, u, loc)
+            continue
+        # ---- one rung per table entry
+        for j in range(len(T)):
+            n += 1
+            suffix = suff[1][j]
+            div = scale[1][j] if scale_op == '/' else 1.0 / scale[1][j]
+            thr = T[j]
+            nxt = T[j + 1] if j + 1 < len(T) else None
+            inst = "%s: rung %s[%d] (|value| %s %g%s) -> '%s'" % (fname, tname, j, op, thr,
+                                                                  (' and not %s %g' % (op, nxt)) if nxt is not None else '', suffix)
+            key0 = '%s|%s|%s|rung-%s' % (R, file, fname, suffix or '?')
+            probs = []
+            if trole is None:
+                probs.append(('und', 'the counted value `%s` is not the input or its absolute value' % tu.show(tu.kids(call)[1])))
+            elif trole[0] == 'param' and not unsigned_in:
+                probs.append(('tested-value', 'the thresholds are counted on the signed input instead of its absolute value: negative '
+                              'inputs take the wrong rung'))
+            if nrole[0] == 'abs' and not unsigned_in:
+                probs.append(('sign', 'the absolute value is printed: the sign of the input is lost'))
+            if suffix not in SI_EXP:
+                probs.append(('suffix', "'%s' is not an SI prefix" % suffix))
+            else:
+                sv = 10.0 ** SI_EXP[suffix]
+                if not approx(div, sv):
+                    probs.append(('divisor', "the value is divided by %g but the suffix '%s' stands for %g" % (div, suffix, sv)))
+                want = sv if upper else sv * 1000.0
+                if upper != (SI_EXP[suffix] > 0):
+                    probs.append(('direction', "the rung for '%s' is tested with `%s`" % (suffix, op)))
+                elif not approx(thr, want):
+                    probs.append(('threshold', "the rung for '%s' (%g) is taken for |value| %s %g, expected %s %g: values between the "
+                                  'two print a mantissa outside [1, 1000]' % (suffix, sv, op, thr, op, want)))
+                (ups if upper else los).append(SI_EXP[suffix])
+            hard = [p_ for p_ in probs if p_[0] != 'und']
+            if hard:
+                for kind, msg in hard:
+                    ctx.violation(R, inst, msg, loc, key=('%s-%s' % (key0, kind)) if kind not in ('sign', 'tested-value')
+                                  else '%s|%s|%s|%s' % (R, file, fname, kind))
+            elif probs:
+                ctx.undecided(R, inst, probs[0][1], loc)
+            else:
+                ctx.ok(R, inst, 'threshold %g, divisor %g' % (thr, div), loc)
+    # ---- order: the table of upper rungs ascends by 10^3 from k, the table of sub-unit rungs descends by 10^3 from m
+    n += 1
+    inst = '%s: ladder order' % fname
+    probs = []
+    if ups and ups != list(range(3, 3 + 3 * len(ups), 3)):
+        probs.append('the thresholds >= 1000 carry the suffix exponents %s, expected a gap-free ascent by 10^3 from k' % ups)
+    if los and los != list(range(-3, -3 - 3 * len(los), -3)):
+        probs.append('the sub-unit limits carry the suffix exponents %s, expected a gap-free descent by 10^3 from m' % los)
+    # the sub-unit count must only be consulted when no upper threshold was reached: it is, if its branch lies behind the upper one
+    if probs:
+        for pmsg in probs:
+            ctx.violation(R, inst, pmsg, tu.fn_loc(f), key='%s|%s|%s|ladder-order' % (R, file, fname))
+    else:
+        ctx.ok(R, inst, 'exponents %s / %s' % (ups, los), tu.fn_loc(f))
+    return n
+
+
 def check_ladder(ctx, tu, qname):
     R = 'R-C18-3'
     R10 = 'R-C18-10'
@@ -2741,6 +3033,10 @@ def check_ladder(ctx, tu, qname):
         ul = unit_loop_ladder(ctx, tu, f, R)
         if ul is not None:
             n += ul
+            continue
+        cl = count_ladder(ctx, tu, f, R)
+        if cl is not None:
+            n += cl
             continue
         rungs = []
         und = []
